@@ -254,7 +254,7 @@ func c19select(c *vf.Ctx, st *c19stats, which int, p c19params, list []*c19coin)
 	}
 
 	// generic clauses
-	if len(ids) > p.maxInputs {
+	if len(ids) > p.maxInputs && len(ids) > 0 { // an empty selection has no inputs to limit, whatever the (possibly negative) limit
 		c.Failf(name+"/max-inputs", "%s: selected %d coins %v, MaxInputs is %d", lin, len(ids), ids, p.maxInputs)
 	}
 	if !c19sat(p.target, p.minChange, total) {
@@ -555,6 +555,10 @@ func c19randParams(r *vf.Rand, list []*c19coin) c19params {
 		p.maxInputs = n
 	default:
 		p.maxInputs = r.Intn(n + 2)
+	}
+	if r.Chance(1, 16) {
+		// limits at the ends of the int range: no arithmetic on the limit may wrap
+		p.maxInputs = []int{-1, math.MinInt, math.MinInt + 1, math.MinInt + 2, math.MinInt + 12, math.MaxInt, math.MaxInt - 1, -12}[r.Intn(8)]
 	}
 	// MinAvgValueAgePerInput
 	switch r.Intn(6) {
